@@ -385,10 +385,14 @@ fn gen_cones(cs: &mut ChoiceStream, o: &GenOpts) -> Vec<ConeSpec> {
             3 => ConeSpec::Exp,
             4 => ConeSpec::Pow([0.5, 0.25, 0.75, 0.3, 0.9][cs.choose("alpha", 5) as usize]),
             _ => {
-                let alpha = match cs.choose("galpha", 3) {
+                // the last two sum to 0.9999999999999999 in f64: legal (the constructor's
+                // allowance is len*eps/2) but not bit-exactly one
+                let alpha = match cs.choose("galpha", 5) {
                     0 => vec![0.5, 0.5],
                     1 => vec![0.25, 0.75],
-                    _ => vec![0.25, 0.25, 0.5],
+                    2 => vec![0.25, 0.25, 0.5],
+                    3 => vec![0.7, 0.2, 0.1],
+                    _ => vec![0.4, 0.3, 0.2, 0.1],
                 };
                 ConeSpec::GenPow(alpha, 1 + cs.choose("gdim2", 2) as usize)
             }
